@@ -356,7 +356,13 @@ func ruleR19_3(c *Check) {
 			src := w.Origin(o.SiteFn, hc.Args[0])
 			switch {
 			case w.isCallTo(src, pk):
+				// ParseKey strips the 8 version bytes: it must be applied to an internal key, never to
+				// the iterator's prefix, which is a user key already
 				okv = true
+				if pc, isCall := unparen(src).(*ast.CallExpr); isCall && len(pc.Args) == 1 && w.mentions(w.Origin(o.SiteFn, pc.Args[0]), prefix) {
+					okv = false
+					why = "ParseKey applied to opt.Prefix, a user key: the last 8 bytes of the key are cut off before hashing"
+				}
 			case w.fieldOf(src) == prefix:
 				// only valid when the prefix is a whole key: must be under prefixIsKey
 				for _, g := range w.Guards(o.SiteFn, call) {
